@@ -52,6 +52,9 @@ NONVALIDATING = {"valid", "validstr", "valid_std", "unm_any", "unm_raw", "unm_un
 # users are held to the exact frame count the model proves (`validate_complete`: frames <= 4096).
 OWN_STACK = {"unm_any", "unm_any_std", "unm_struct", "unm_struct_std", "unm_empty"}
 DEPTH_ALL = 4095
+# destinations of `valid typed`, in the order of c02TDests (go/harness/ops_json.go); two flags each: default, std
+TYPED = ["struct", "pstruct", "slice", "array", "map", "mapstruct", "slice2", "slicestruct", "sliceany", "mapany",
+         "int", "string", "bool", "float"]
 REF_LIMIT = 10000   # encoding/json scanner: maxNestingDepth
 
 
@@ -165,6 +168,7 @@ class C02(Spec):
             Stream("valid", "c02.valid", 600 if q else 80000, envs=envs, timeout=0.05),
             Stream("malformed", "c02.malformed", 600 if q else 80000, envs=envs, timeout=0.05),
             Stream("unterminated", "c02.unterminated", 100 if q else 5000, envs=envs, timeout=0.05),
+            Stream("junk", "c02.junk", 0, envs=envs, timeout=0.05),
             Stream("deep", "c02.deep", 0, envs=envs, timeout=20.0),
         ]
 
@@ -180,6 +184,8 @@ class C02(Spec):
             expect = "1" if (m["strict"] == "1" and depth <= REF_LIMIT) else "0"
             if s["ref"] != expect:
                 return True
+            if case[1] == "typed":
+                continue
             if depth < 3000 and m.get("tree") != m["strict"]:
                 return True      # the shared tree parser is a second model of Strict (fuel-bounded for deep input)
             # internal consistency of the model itself (theorems say so; a compiled-model bug would show here)
@@ -201,6 +207,27 @@ class C02(Spec):
             if "strict" not in m:
                 continue
             self.counts["judged"] = self.counts.get("judged", 0) + 1
+            if case[1] == "typed":
+                # compiled (JIT) decoders into typed destinations: the two bounds, nothing else.  A refusal only
+                # counts when encoding/json takes the same document into the same type (rt flag = 1).
+                bits, rt = s.get("sonic", ""), s.get("rt", "")
+                if len(bits) != 2 * len(TYPED) or len(rt) != len(TYPED):
+                    out.append(("tie:typed-answer", "%s: unexpected answer %s" % (env, str(s)[:200])))
+                    continue
+                if "1" not in bits and "P" not in bits and not (m["strict"] == "1" and "0" in bits):
+                    continue
+                for i, a in enumerate(bits):
+                    dest = TYPED[i // 2]
+                    k = "t_" + dest + ("_std" if i % 2 else "")
+                    if a == "P":
+                        out.append(("panic:" + k, "%s: %s panicked: %s" % (env, k, s.get("panic_" + k))))
+                    elif a == "1" and m["structural"] == "0":
+                        out.append(("accepts-malformed:%s:%s" % (k, shape(_doc(case), b"", case, m)),
+                                    "%s: Unmarshal into %s accepted a document that is not structurally well-formed" % (env, dest)))
+                    elif (a == "0" and m["strict"] == "1" and int(m["depth"]) <= DEPTH_ALL and rt[i // 2] == "1"):
+                        out.append(("rejects-valid:" + k, "%s: Unmarshal into %s rejected a Strict document that encoding/json "
+                                    "decodes into the same type" % (env, dest)))
+                continue
             api_shape = ""
             for api, (pre, exact) in APIS.items():
                 a = s.get(api)
@@ -335,7 +362,34 @@ class C02(Spec):
             word = doc.lstrip(WS) + bytes.fromhex(tails[0])
             return any(word.startswith(l) and len(doc.lstrip(WS)) < len(l) for l in (b"null", b"true", b"false"))
 
-        return {"unterminated_string_scalar_tail_empty": unterminated_tail_empty,
+        def fixed_array_comma_close(d, params):
+            # destination [2]int (directly, or as field "i" of the struct destinations): exactly two numbers, a comma,
+            # blanks, `]` - and the document is well-formed once that comma is taken out
+            import re
+            import json as _json
+            what, api, shp = parts(d)
+            if what != "accepts-malformed":
+                return False
+            doc = _doc(d["case"])
+            ws = rb"[ \t\r\n]*"
+            arr = rb"\[" + ws + rb"-?[0-9]+" + ws + rb"," + ws + rb"-?[0-9]+" + ws + rb"(,)" + ws + rb"\]"
+            if api in ("t_array", "t_array_std"):
+                mm = re.fullmatch(ws + arr + ws, doc)
+            elif api in ("t_struct", "t_struct_std", "t_pstruct", "t_pstruct_std"):
+                mm = re.search(rb'"i"' + ws + rb":" + ws + arr, doc)
+            else:
+                return False
+            if mm is None:
+                return False
+            fixed = doc[:mm.start(1)] + doc[mm.end(1):]
+            try:
+                _json.loads(fixed.decode("utf-8"))
+            except Exception:
+                return False
+            return True
+
+        return {"fixed_array_full_then_comma_close": fixed_array_comma_close,
+                "unterminated_string_scalar_tail_empty": unterminated_tail_empty,
                 "raw_node_ignores_trailing_bytes": trailing_ignored,
                 "short_literal_completed_behind_input": short_literal}
 
